@@ -287,7 +287,7 @@ func (fc *FnCtx) inferFrame(fn *ssa.Function) *inferredFrame {
 										continue
 									}
 									res.all = true
-									res.why = "unknown function value passed to " + callee.String()
+									res.why = "unknown function value (" + a.String() + ") passed to " + callee.String() + " in " + full
 									break
 								}
 								for _, g := range fns {
@@ -345,6 +345,8 @@ func resolveFuncValue(v ssa.Value, depth int) []*ssa.Function {
 		return nil
 	case *ssa.Function:
 		return []*ssa.Function{x}
+	case *ssa.ChangeType:
+		return resolveFuncValue(x.X, depth+1)
 	case *ssa.MakeClosure:
 		return []*ssa.Function{x.Fn.(*ssa.Function)}
 	case *ssa.Phi:
